@@ -88,8 +88,54 @@ func famOutcome(p *an.Path, _ an.Env) string {
 	return codecFamily(p.Ret[0])
 }
 
+// mediaLHSConsistency: on paths where the Content-Type parsed, the media type
+// compared must be the parsed one (parameters stripped); where it did not
+// parse, the raw header value.
+func mediaLHSConsistency(c *an.Ctx, rule string, f *an.Func) {
+	if f == nil {
+		return
+	}
+	t := an.BuildPathTable(c.SSAFunc(f), an.PathOpts{})
+	c.Stats["paths_enumerated"] += len(t.Paths)
+	var probs []string
+	n := 0
+	for i := range t.Paths {
+		p := &t.Paths[i]
+		parsed, known := false, false
+		for _, a := range p.Atoms {
+			if regexp.MustCompile(`^\(mime\.ParseMediaType\(.*\)#2 == nil\)$`).MatchString(a.Term) {
+				parsed, known = a.Val, true
+			}
+		}
+		if !known {
+			continue
+		}
+		for _, a := range p.Atoms {
+			var lhs string
+			if m := reMTEq.FindStringSubmatch(a.Term); m != nil {
+				lhs = m[1]
+			} else if m := reMTSuffix.FindStringSubmatch(a.Term); m != nil {
+				lhs = m[1]
+			} else {
+				continue
+			}
+			n++
+			isParsed := strings.Contains(lhs, "mime.ParseMediaType(")
+			if isParsed != parsed {
+				probs = append(probs, fmt.Sprintf("Content-Type parsed=%v but the media type compared is %s", parsed, map[bool]string{true: "the parsed type", false: "the raw header value (parameters such as charset make it match nothing)"}[isParsed]))
+			}
+		}
+	}
+	if n == 0 {
+		probs = append(probs, "no media-type comparison found")
+	}
+	report(c, rule, f.Name+"#sanitised", f, probs, "the parsed media type (parameters stripped) is compared when the header parses, the raw value otherwise")
+}
+
 func runC15(c *an.Ctx) string {
 	const r1 = "R15.1"
+	mediaLHSConsistency(c, r1, c.Func("http", "RequestDecoder"))
+	mediaLHSConsistency(c, r1, c.Func("http", "ResponseDecoder"))
 	// ResponseDecoder
 	decision(c, r1, c.MustFunc(r1, "http", "ResponseDecoder"), an.PathOpts{},
 		mediaCanon(`^\(\(net/http\.Header\)\.Get\(p0\.Header, "Content-Type"\) == ""\)$`, "ctEmpty",
